@@ -638,6 +638,11 @@ class C07Runner:
             sim.probe("ctrlz_on_three_stage_pipeline")
 
     def mark_dead(self, m):
+        job = next((j for j in self.jobs if m in j.members), None)
+        if job is not None and not m.dead and len(job.live()) == 1 and job.live()[0] is m \
+                and not getattr(job, "substitution", False):
+            # the job's last process is going: was the job in the background (launched with &, stopped, or bg'ed)?
+            job.bg_at_death = job is not self.fg
         m.dead = True
         if m.pup is not None:
             m.pup.alive = False
@@ -731,9 +736,9 @@ class C07Runner:
         if self.finish_stage == 2:
             self.finish_stage = 3
             for j in self.jobs:
-                if j.bg and not getattr(j, "was_fg", False) and j.gid is not None and j.done_reports != 1:
-                    raise Violation("done_report_count", "background job %s finished and was reported %d times" % (
-                        j.label(), j.done_reports))
+                if j.gid is not None and getattr(j, "bg_at_death", False) and j.done_reports != 1:
+                    raise Violation("done_report_count", "%s finished in the background (launched with &, stopped or "
+                                    "resumed with bg) and was reported %d times" % (j.label(), j.done_reports))
             self.sim.probe("background_jobs_reported_once")
             self.shell.type_line("exit")
             self.typed_pending = True
